@@ -43,7 +43,7 @@ ASSUMPTIONS = [
     '(mtime restored) only the max_persist bound, placeholders and returned Frames are judged',
     'parquet / xlsx / hdf5 stores cannot run here (libraries absent): counted under skipped_formats',
 ]
-TIERS = {'quick': {'shards': 8, 'budget_s': 150, 'min_nontrivial': 20000},
+TIERS = {'quick': {'shards': 8, 'budget_s': 150, 'min_nontrivial': 15000},
          'thorough': {'shards': 16, 'budget_s': 1500, 'min_nontrivial': 300000}}
 ANCHORS = {
     'static_frame.core.bus': ['Bus._update_series_cache_iloc', 'Bus._store_reader', 'Bus.__init__', 'Bus._derive', 'Bus._from_store',
@@ -123,7 +123,7 @@ def _strata():
 def generate(ctx):
     rng = ctx.rng
     strata = _strata()
-    total = ctx.n(9600, 160000)
+    total = ctx.n(6400, 160000)
     # offset by shard so that the cyclic enumeration of (format, n, max_persist, fault) differs per shard
     base = ctx.shard * 7919
     for i in range(total):
@@ -1106,6 +1106,10 @@ def _check_export(env, ctx, entry, fp2, kl_extra, held):
         st = _store_cls(env.fmt)(fp2)
         got_labels = list(st.labels(config=env.config))
         frames = list(st.read_many(list(got_labels), config=env.config)) if _labels_equal(got_labels, m.labels) else None
+    except Exception as e:
+        ctx.violation('valid_access_raised', detail={'stage': 'reading the exported file', 'exception': type(e).__name__, 'message': str(e)[:300]},
+                      klass=env.klass(exception=type(e).__name__, **kl_extra))
+        return False
     finally:
         env.suspended = False
     if frames is None:
